@@ -3,12 +3,15 @@ module verif.sim/harness
 go 1.26.8
 
 require (
+	golang.org/x/crypto v0.31.0
+	golang.org/x/text v0.21.0
 	mellium.im/sasl v0.3.2
 	mellium.im/xmlstream v0.15.4
 	mellium.im/xmpp v0.0.0
 	verif.sim/simrt v0.0.0
-	golang.org/x/text v0.21.0
-	golang.org/x/crypto v0.31.0 // indirect
+)
+
+require (
 	golang.org/x/net v0.33.0 // indirect
 	mellium.im/reader v0.1.0 // indirect
 )
